@@ -49,6 +49,8 @@ type Variant struct {
 	lost map[int]bool
 	// torn: the in-flight synchronous write at the crash point is cut to this many bytes (-1: absent).
 	torn int
+	// damage: index+1 of a completed write whose bytes are garbled on the medium (0: none).
+	damage int
 }
 
 type op struct {
@@ -413,6 +415,12 @@ func (t *T) build(cp int, v Variant) map[string]*fileImg {
 			if cut >= 0 && cut < len(data) {
 				data = data[:cut]
 			}
+			if v.damage == i+1 {
+				data = append([]byte{}, data...)
+				for k := len(data) / 2; k < len(data)/2+4 && k < len(data); k++ {
+					data[k] ^= 0xa5
+				}
+			}
 			off := o.off
 			if off < 0 {
 				off = int64(len(f.data))
@@ -549,6 +557,19 @@ func (t *T) Variants(cp int, deep bool) []Variant {
 		sort.Ints(cl)
 		for _, c := range cl {
 			vs = append(vs, Variant{Kind: "torn-in-flight-write", Desc: fmt.Sprintf("in-flight write of %d bytes to %s cut after %d bytes", n, filepath.Base(t.ops[cp].path), c), torn: c})
+		}
+	}
+	return vs
+}
+
+// DamageVariants: for the image at cp with nothing lost, one variant per completed write of at least 16 bytes to a file
+// with the given suffix, in which four bytes in the middle of that write are garbled (a damaged block on the medium).
+func (t *T) DamageVariants(cp int, suffix string) []Variant {
+	var vs []Variant
+	for i := 0; i < cp && i < len(t.ops); i++ {
+		o := t.ops[i]
+		if o.kind == "write" && strings.HasSuffix(o.path, suffix) && len(o.data) >= 16 {
+			vs = append(vs, Variant{Kind: "damaged-block", Desc: fmt.Sprintf("the %d bytes written to %s by system call #%d are damaged on the medium", len(o.data), filepath.Base(o.path), i), torn: -1, damage: i + 1})
 		}
 	}
 	return vs
